@@ -104,6 +104,16 @@ theorem disconnect_tail {c : Ctx} {s s1 : Store} {h : Nat} (h0 : h ≠ 0) (hst :
   rw [hrun, M_ok_bind, hreset]
   rfl
 
+/-- `disconnect_tail` as a list of facts about the resulting store -/
+theorem disconnect_tail' {c : Ctx} {s s1 : Store} {h : Nat} (h0 : h ≠ 0) (hst : s.syncedTo = h)
+    (hrun : rollback c s h = .ok s1) (hst1 : s1.syncedTo = s.syncedTo) :
+    ∃ s', disconnectBlock c s h = .ok s' ∧ s'.unspent = s1.unspent ∧ s'.credits = s1.credits ∧ s'.debits = s1.debits ∧
+      s'.game = s1.game ∧ s'.txrecs = s1.txrecs ∧ s'.blocks = s1.blocks ∧ s'.balance = s1.balance ∧
+      s'.sync = AMap.erase s1.sync h ∧ s'.syncedTo = h - 1 ∧ s'.status = s1.status.map (pullBack (h - 1)) ∧
+      (∀ l, readyWallets s' l = readyWallets s1 l) :=
+  ⟨_, disconnect_tail h0 hst hrun hst1, rfl, rfl, rfl, rfl, rfl, rfl, rfl, rfl, rfl, rfl,
+    fun l => readyWallets_map { s1 with sync := AMap.erase s1.sync h, syncedTo := h - 1 } (h - 1) l⟩
+
 theorem pullBack_get (status : AMap.T Wid WStatus) (n : Nat) (w : Wid) :
     AMap.get (status.map (pullBack n)) w = (AMap.get status w).map (fun st =>
       match st.synced with
